@@ -8,7 +8,7 @@ from .common import Out, import_mbi
 ID = 'C18'
 RULE = ('Hypothesis draws (mode valid) a domain (2-4 attrs, sizes 1-4), 1-4 measurements with explicit queries '
         '(identity/dense/prefix/sparse/scaled/total) and tuple projections (overlapping, nested, duplicated), total given '
-        'or omitted, marginal oracle in {convex, approx, pairwise}, iters in {1,2,3,5,20,100,300}, inner_iters in {1,3}: '
+        'or omitted, marginal oracle in {convex, approx, pairwise}, iters in {0,1,2,3,5,20,100,300}, inner_iters in {1,3}: '
         'estimate must return; every measured clique table finite, >=0, sums to model.total; loss recomputed from those '
         'tables <= loss of uniform tables; convex oracle: primal feasibility < 1; a quarter of the valid cases declare structural zeros (a few cells or a whole attribute value): tables stay valid and the declared cells of a measured clique carry no mass. (mode exact) pairwise-disjoint distinct '
         'measured cliques: after iteration escalation (1000, 4000, 16000) the loss must reach the certified simplex-QP optimum '
@@ -53,7 +53,7 @@ def cases(draw, tier='quick'):
     return {'mode': mode, 'domain': dom, 'meas': meas, 'data_seed': draw(st.integers(0, 2**31 - 1)),
             'total': draw(st.sampled_from([1.0, 10, 100.0, 1000.0, None])) if mode == 'valid' else draw(st.sampled_from([1.0, 10, 100.0, None])), 'true_total': draw(st.sampled_from([1.0, 20.0, 500.0])),
             'oracle': draw(st.sampled_from(['convex', 'approx', 'pairwise'])),
-            'iters': draw(st.sampled_from([1, 2, 3, 5, 20, 100, 300])), 'inner_iters': draw(st.sampled_from([1, 3])),
+            'iters': draw(st.sampled_from([0, 1, 2, 3, 5, 20, 100, 300])), 'inner_iters': draw(st.sampled_from([1, 3])),
             'prior_call': draw(st.integers(0, 2)) == 0,
             # structural zeros (constructor argument): a few impossible cells / one impossible value of an attribute
             'zeros': (draw(zero_regime(attrs, shape)) if mode == 'valid' and draw(st.integers(0, 3)) == 0 else [])}
